@@ -45,7 +45,7 @@ MIX = [("hs", 4), ("refuse", 2), ("natmix", 2), ("net:tcp", 1), ("net:mixed", 1)
 
 
 def gen(seed, tier):
-    return hs_gen.generate(seed, tier, n=8000 if tier == "quick" else 60000, mix=MIX)
+    return hs_gen.generate(seed, tier, n=6000 if tier == "quick" else 60000, mix=MIX)
 
 
 def rerun_if_timeout(check, r):
